@@ -9,11 +9,11 @@ import puan.ndarray as pnd
 
 TARGET = "puan.modules.configurator"
 CONTRACTS = {
-    "Any.__init__": {"props": ["C14", "C16"],
+    "Any.__init__": {"props": ["C14", "C16", "C18"],
                      "why": "default given and mixed: Any(default item, inner=Any(complement)) with inner tagged prio -2 (= default -1, minus 1)"},
     "Any.to_json": {"props": ["C16"], "why": "restructured Any is written flat (default item + inner's children) with its default list"},
     "Any.from_json": {"props": ["C16"], "why": "default list read back into default="},
-    "Xor.__init__": {"props": ["C14", "C16"], "why": "the at-least-one half of the Xor becomes a defaulted Any"},
+    "Xor.__init__": {"props": ["C14", "C16", "C18"], "why": "the at-least-one half of the Xor becomes a defaulted Any"},
     "Xor.to_json": {"props": ["C16"], "why": "children taken from the at-most-one half; default list written"},
     "Xor.from_json": {"props": ["C16"], "why": "default list read back into default="},
     "StingyConfigurator.__init__": {"props": ["C14", "C16", "C18"], "why": "a configurator is All(*rules) with the given id"},
